@@ -330,7 +330,12 @@ def call(pe, name, args, kwargs, node):
       return Opaque("match") if m is not None else None
     pe.err("%s on non-constant strings" % name, node)
   if name in ("json.dumps",):
-    return "<json>"
+    return Mock("json", {"obj": args[0]})
+  if name in ("json.loads",):
+    v = args[0]
+    if isinstance(v, Mock) and "obj" in v.attrs:
+      return call(pe, "copy.deepcopy", [v.attrs["obj"]], {}, node)
+    pe.err("json.loads of a non-constant string", node)
   if name == "re.sub":
     import re as _re
     pat, rep_, text = args[0], args[1], args[2]
@@ -813,6 +818,9 @@ def isinstance_(pe, v, ty):
       pass
     elif n == "type":
       if isinstance(v, ClassRef):
+        return True
+    elif n in ("types.FunctionType", "types.LambdaType"):
+      if isinstance(v, Func):
         return True
     elif n in ("numbers.Number",):
       if is_num(v):
